@@ -5,6 +5,7 @@ from __future__ import annotations
 import ast
 
 from .. import astutil as A
+from .. import q
 from ..idioms import cname, where
 from ..loader import AnalysisError
 from ..re_model import CLS, MOD, REModel
@@ -135,6 +136,31 @@ def d4_entry_guards(ctx, rm: REModel):
     ctx.expect("C07.D4-entry-guards", 6)
 
 
+def d5_single_run_task(ctx, rm: REModel):
+    """Discharges the model assumption 'one _run task at a time': the launcher creates the task (init_func -> _build_task) only
+    after every step of its own that can fail - entering the context managers - has succeeded.  Otherwise a failed launch leaves
+    an orphan _run parked on the run permit; the next call starts a second one and both wake on the shared permit
+    (running -> running is rejected inside _run; the engine is forced idle while the other task still executes)."""
+    rt = rm.m("_resume_task")
+    g = q.cfg(rt, q.quiet_policy(rm.repo))
+    inits = [s for s in A.walk_stmts(rt.node.body) if isinstance(s, ast.Expr) and isinstance(s.value, ast.Call) and A.call_name(s.value) == "init_func"]
+    ctx.require(inits, "anchor vanished: init_func() call in RunEngine._resume_task")
+    enters = [s for s in A.walk_stmts(rt.node.body) if isinstance(s, (ast.For, ast.While)) and A.method_calls(s, "enter_context")]
+    ok = bool(enters)
+    ctx.ob("C07.D5-one-run-task", cname(rt, None, "context managers are entered by the launcher"), ok, "" if ok else "context-manager entry not found", where=where(rt, rt.node))
+    for s in inits:
+        late = [e for e in enters if any(n in g.reachable(list(g.nodes_of(s))) for n in g.nodes_of(e))]
+        ok = bool(enters) and not late
+        ctx.ob("C07.D5-one-run-task", cname(rt, s), ok,
+               "" if ok else "the _run task is created before the context managers are entered: if one of them raises, the call fails with an orphan _run "
+               "parked on the run permit and the next call runs two _run tasks at once", nontrivial=True, where=where(rt, s))
+    bt = rm.repo.funcs.get(f"{MOD}:{CLS}.__call__._build_task")
+    if bt is not None:
+        ok = any(A.find_calls(s, "self._run") for s in A.walk_stmts(bt.node.body)) and any(A.find_calls(s, "self._run_permit.clear") for s in A.walk_stmts(bt.node.body))
+        ctx.ob("C07.D5-one-run-task", cname(bt, None, "the task starts parked: permit cleared, then _run scheduled"), ok,
+               "" if ok else "_build_task changed", where=where(bt, bt.node))
+
+
 def run(ctx):
     rm = REModel(ctx.repo)
     tail = RunTail(rm)
@@ -142,7 +168,8 @@ def run(ctx):
         "Decided: D1 thread-modular typestate of RunEngine._state over the CFG of _run x request summaries "
         "(every assignment legal for every reachable pre-state); D2 every exit of _run after the state left idle "
         "passes self._state='idle' (CFG with CancelledError/Exception edges); D3 closed-world writers of _state, "
-        "checked setter, table closure; D4 guards of the blocking entry points dominate their effects. "
+        "checked setter, table closure; D4 guards of the blocking entry points dominate their effects; D5 the launcher creates the _run task only after its own fallible "
+        "set-up (context managers) succeeded, which discharges the assumption of a single _run task. "
         "Not decided: real scheduling/timing, KeyboardInterrupt/panicked path, commands added with register_command.")
     ctx.assume("asyncio switches tasks only at await", "one _run task at a time (__call__ requires idle)",
                "OpenTelemetry span calls and logging calls do not raise")
@@ -151,6 +178,7 @@ def run(ctx):
     d2_must_reach_idle(ctx, rm, tail)
     d3_state_writers(ctx, rm)
     d4_entry_guards(ctx, rm)
+    d5_single_run_task(ctx, rm)
     ctx.extra.update(tail.g.stats())
     ctx.extra["opaque_calls"] = sorted(tail.pol.opaque)[:40]
     ctx.extra["resolved_callee_summaries"] = {k: sorted(v) for k, v in sorted(tail.pol._summaries.items())}
@@ -162,6 +190,9 @@ CLAIM = {'text': "Decides, for every interleaving at await granularity of the fi
 
 RE = "run_engine.py"
 MUTANTS = [
+    ("task created before the context managers are entered (seed C07-b)",
+     [(RE, "            for mgr in self.context_managers:\n                stack.enter_context(mgr(self))\n\n            if init_func is not None:\n                init_func()\n", "            if init_func is not None:\n                init_func()\n\n            for mgr in self.context_managers:\n                stack.enter_context(mgr(self))\n")],
+     "C07.D5"),
     ("table: idle removed from transitions['pausing']",
      [(RE, '"pausing": ["paused", "idle", "halting", "aborting", "panicked"],', '"pausing": ["paused", "halting", "aborting", "panicked"],')],
      "C07.D1"),
